@@ -1,6 +1,8 @@
 import FlowRecordProofs.Lemmas.Msgpack
 import FlowRecordProofs.Lemmas.Framing
 import FlowRecordProofs.Lemmas.MsgpackAny
+import FlowRecordProofs.Lemmas.SameDoc
+import FlowRecordProofs.Lemmas.StreamRoundtrip
 import FlowRecord.Model.Stream
 import FlowRecord.Spec.Wire
 /-!
@@ -120,6 +122,29 @@ theorem C02_encoding_unambiguous (v w : MVal) (bs : Bytes) (hv : Encodes v bs) (
   cases h2
   rfl
 
+/-- M2 at the ENVELOPE layer. The payload of an extension value is itself a msgpack document, and an independent
+    writer may encode it - and the payloads nested inside it, to any depth - with any admissible size classes.
+    `SameDoc v v'` says `v'` is `v` with every extension payload replaced by SOME conforming encoding of the
+    (recursively re-encoded) document the original payload holds. Such a document is unpacked to exactly the same
+    value, for every registry and every fuel (the nesting is unchanged, so no more fuel is needed). -/
+theorem C02_reencoded_payloads_same_value (reg : Registry) (v v' : MVal) (h : SameDoc v v') (f : Nat) :
+    fromM reg f v' = fromM reg f v :=
+  fromM_sameDoc reg h f
+
+/-- ... and so is the whole frame: take what the library would write for an admissible object (`toM pv = m`), let an
+    independent conforming writer re-encode it at every level (`SameDoc m m'`, `Encodes m' bs'`); the reader decodes
+    the frame `bs'` to exactly the object, `rvOf pv` - the fuel the reader derives from the frame length suffices. -/
+theorem C02_reencoded_frame_is_read (reg : Registry) (pv : PV) (m m' : MVal) (bs' : Bytes) (hok : PVOK reg pv)
+    (hm : toM pv = some m) (h : SameDoc m m') (he : Encodes m' bs') :
+    decodeFrame reg bs' = .ok (rvOf pv) := by
+  unfold decodeFrame
+  rw [decode_encodes m' bs' he]
+  have hfuel := fromM_fuel_irrelevant reg h bs' he (bs'.length + 2) (max (need pv) (bs'.length + 2))
+    (by omega) (by omega)
+  simp only []
+  rw [hfuel, fromM_sameDoc reg h]
+  exact fromM_toM reg pv m _ hok hm (Nat.le_max_left _ _)
+
 -- non-vacuity: non-minimal encodings the packer never emits are conforming (5 as uint16; "a" as str32; [nil] as array16)
 example : Encodes (.int 5) (0xcd :: beEnc 2 5) := IntEnc.u16 5 (by omega)
 example : Encodes (.int (-1)) (0xd3 :: beEnc 8 (twos 8 (-1))) := IntEnc.i64 (-1) (by omega) (by omega)
@@ -127,3 +152,12 @@ example : Encodes (.str [97]) ((0xdb :: beEnc 4 1) ++ [97]) := ⟨_, StrHead.s32
 example : Encodes (.arr [.nil]) ((0xdc :: beEnc 2 1) ++ [0xc0]) :=
   ⟨_, _, ArrHead.a16 1 (by omega), ⟨[0xc0], [], rfl, rfl, rfl⟩, rfl⟩
 example : decode (0xcd :: beEnc 2 5) = .ok (.int 5) := decode_encodes _ _ (IntEnc.u16 5 (by omega))
+
+-- non-vacuity of the envelope-layer theorems: the payload document [5, nil], which the library writes as 92 05 c0, is
+-- re-encoded with an array16 head and a uint16 integer (dc 00 02 cd 00 05 c0) - the two extension values are `SameDoc`
+example : SameDoc (.ext 14 (enc (.arr [.int 5, .nil]))) (.ext 14 ((0xdc :: beEnc 2 2) ++ ((0xcd :: beEnc 2 5) ++ [0xc0]))) :=
+  .ext 14 (d := .arr [.int 5, .nil]) (d' := .arr [.int 5, .nil])
+    (decode_enc _ (by simp [WF, WFList]))
+    (.arr (.cons (.int 5) (.cons .nil .nil)))
+    ⟨_, _, ArrHead.a16 2 (by omega), ⟨_, _, IntEnc.u16 5 (by omega), ⟨[0xc0], [], rfl, rfl, rfl⟩, rfl⟩, rfl⟩
+
